@@ -247,7 +247,12 @@ class Verdicts:
         for key, (k, c) in sorted(seen_known.items()):
             print(f"KNOWN-FINDING: property={self.prop} {k.get('what_fails', '')} [{c} case(s) this run]")
         REPLAYS.mkdir(exist_ok=True)
+        shown = 0
         for key, v in sorted(new.items()):
+            shown += 1
+            if shown > 8:
+                print(f"  ... and {len(new) - 8} more distinct violation witnesses (see evidence/{self.prop}.json)")
+                break
             h = hashlib.sha1(key.encode()).hexdigest()[:12]
             path = REPLAYS / f"{self.prop}-{h}.json"
             path.write_text(json.dumps({
@@ -268,6 +273,7 @@ class Verdicts:
             "assumptions": assumptions,
             "wall_s": round(time.time() - self.t0, 2),
             "violations": len(new),
+            "violation_witnesses": [{"clause": v.clause, "witness": v.witness} for v in list(new.values())[:50]],
             "known_findings_seen": [
                 {"clause": k.get("clause"), "witness": k.get("witness"), "cases": c}
                 for (k, c) in seen_known.values()
